@@ -6,11 +6,28 @@ namespace {
 
 struct CB { int count = 0; uint32_t code = 0; uint16_t idx = 0; uint8_t sub = 0; CO_CSDO *who = nullptr; };
 CB g_cb[2];
-void done0(CO_CSDO *c, uint16_t i, uint8_t s, uint32_t code) { g_cb[0].count++; g_cb[0].code = code; g_cb[0].idx = i; g_cb[0].sub = s; g_cb[0].who = c; }
-void done1(CO_CSDO *c, uint16_t i, uint8_t s, uint32_t code) { g_cb[1].count++; g_cb[1].code = code; g_cb[1].idx = i; g_cb[1].sub = s; g_cb[1].who = c; }
+// the application may ask for its next transfer from inside the completion callback: the request is either refused (the client still counts as busy)
+// or accepted - and then it has to work like any other transfer
+struct Chain { bool armed = false, tried = false, active = false; CO_ERR res = CO_ERR_NONE; uint8_t buf[4]; uint32_t size = 0; uint16_t idx = 0; uint8_t sub = 0; Frame req; bool have_req = false; int cbcount = 0; uint32_t code = 0; };
+Chain g_chain[2];
+Sim *g_sim = nullptr;
+void done0(CO_CSDO *c, uint16_t i, uint8_t s, uint32_t code);
+void done1(CO_CSDO *c, uint16_t i, uint8_t s, uint32_t code);
+void done(int n, CO_CSDO *c, uint16_t i, uint8_t s, uint32_t code) {
+  Chain &h = g_chain[n];
+  if (h.active) { h.cbcount++; h.code = code; return; }          // completion of the chained transfer
+  g_cb[n].count++; g_cb[n].code = code; g_cb[n].idx = i; g_cb[n].sub = s; g_cb[n].who = c;
+  if (h.armed) {
+    h.armed = false; h.tried = true; size_t before = g_sim->tx.size();
+    h.res = COCSdoRequestUpload(c, CO_DEV(h.idx, h.sub), h.buf, h.size, n ? done1 : done0, 50);
+    if (h.res == CO_ERR_NONE) { h.active = true; if (g_sim->tx.size() > before) { h.req = g_sim->tx.back(); h.have_req = true; g_sim->tx.pop_back(); } }
+  }
+}
+void done0(CO_CSDO *c, uint16_t i, uint8_t s, uint32_t code) { done(0, c, i, s, code); }
+void done1(CO_CSDO *c, uint16_t i, uint8_t s, uint32_t code) { done(1, c, i, s, code); }
 
 void one_case(Ctx &c) {
-  Sim s(c); World w(s);
+  Sim s(c); World w(s); g_sim = &s; g_chain[0] = Chain(); g_chain[1] = Chain();
   s.nodeid = (uint8_t)(1 + c.t.below(100));
   s.ntmr = (uint16_t)(4 + c.t.below(13));
   w.mandatory();
@@ -69,7 +86,7 @@ void one_case(Ctx &c) {
   };
   auto other_wait = [&](CB &maincb, int maincount) { for (int g = 0; oth.open && g < 80; g++) { tick(); CHECK(c, maincb.count == maincount || &maincb == &g_cb[oth.n], "concurrent-clients", "waiting for the other client's timeout invoked this client's callback"); CHECK(c, s.tx.empty(), "nothing-left-behind", "unexpected frame %s while only the other client's timeout was pending", s.tx[0].str().c_str()); }
     CHECK(c, !oth.open, "timeout-exact", "client %d: transfer with a timeout of %d ms did not end by tick %ld", oth.n, oth.tmo, s.tick); };
-  int ntransfers = 1 + (int)c.t.below(6); bool nt = ntransfers >= 2; int malformed_cnt = 0, stale_cnt = 0;
+  int ntransfers = 1 + (int)c.t.below(6); bool nt = ntransfers >= 2; int malformed_cnt = 0, stale_cnt = 0, chained = 0;
   VLOG(c, "node %u, %u timer slots, %d transfer(s)", s.nodeid, s.ntmr, ntransfers);
   for (int x = 0; x < ntransfers; x++) {
     int n = CO_CSDO_N > 1 ? (int)c.t.below(2) : 0;
@@ -88,8 +105,12 @@ void one_case(Ctx &c) {
     int idle = (int)c.t.below(12);
     uint16_t idx = (uint16_t)(0x2000 + c.t.below(16)); uint8_t sub = (uint8_t)c.t.below(4);
     uint8_t *ub = (uint8_t *)malloc(size); std::vector<uint8_t> sv(size), orig(size), rcv;
-    SplitMix r(c.t.u16()); for (uint32_t i = 0; i < size; i++) { sv[i] = (uint8_t)r.next(); ub[i] = up ? 0xEE : (uint8_t)r.next(); orig[i] = ub[i]; }
+    uint16_t pseed = c.t.u16(); g_chain[n] = Chain();
+    SplitMix r(pseed); for (uint32_t i = 0; i < size; i++) { sv[i] = (uint8_t)r.next(); ub[i] = up ? 0xEE : (uint8_t)r.next(); orig[i] = ub[i]; }
+    // (derived from the payload seed, not drawn from the tape: the saved witnesses keep their meaning)
+    { SplitMix q(0xC4A1u ^ pseed); if (q.next() % 5 == 0) { Chain &h = g_chain[n]; h.armed = true; h.size = 1 + (uint32_t)(q.next() % 4); h.idx = (uint16_t)(0x2100 + q.next() % 4); h.sub = (uint8_t)(q.next() % 3); memset(h.buf, 0xEE, 4); } }
     CB &cb = g_cb[n]; cb = CB();
+    Chain &ch = g_chain[n];
     s.clear_tx();
     VLOG(c, "transfer %d: client %d %s %04X:%02X size %u timeout %d ms, server %s%s", x, n, up ? "upload" : "download", idx, sub, size, tmo,
          beh < 4 ? "conforming" : beh == 4 ? "aborts" : beh == 5 ? "goes silent" : "sends a malformed response", beh >= 4 ? (" at step " + std::to_string(k)).c_str() : "");
@@ -202,6 +223,19 @@ void one_case(Ctx &c) {
       } else if (conforming) CHECK(c, cb.count == 0, "exactly-one-callback", "completion callback (code %08X) before the transfer was complete (step %u)", cb.code, step);
     }
     CHECK(c, cb.count == 1, "exactly-one-callback", "%d completion callbacks for one transfer", cb.count);
+    if (ch.tried) {
+      chained++;
+      if (ch.res == CO_ERR_NONE) {   // accepted from inside the callback: it must be a working transfer
+        VLOG(c, "  request from inside the completion callback accepted");
+        CHECK(c, ch.have_req && ch.req.id == txid[n] && ch.req.dlc == 8 && ch.req.d[0] == 0x40 && ch.req.u16(1) == ch.idx && ch.req.d[3] == ch.sub, "chained-request", "a request issued from inside the completion callback was accepted, but the client sent %s instead of the upload request for %04X:%02X", ch.have_req ? ch.req.str().c_str() : "nothing", ch.idx, ch.sub);
+        Frame r; r.id = rxid[n]; r.dlc = 8; r.d[0] = (uint8_t)(0x43 | ((4 - ch.size) << 2)); r.d[1] = (uint8_t)ch.idx; r.d[2] = (uint8_t)(ch.idx >> 8); r.d[3] = ch.sub; for (uint32_t i = 0; i < ch.size; i++) r.d[4 + i] = (uint8_t)(0x61 + i);
+        s.clear_tx(); s.rx(r);
+        CHECK(c, ch.cbcount == 1 && ch.code == 0, "chained-request", "a request issued from inside the completion callback was accepted (CO_ERR_NONE); after the server's answer its completion callback ran %d time(s) with code %08X (once with code 0 expected)", ch.cbcount, ch.code);
+        for (uint32_t i = 0; i < ch.size; i++) CHECK(c, ch.buf[i] == 0x61 + i, "chained-request", "the transfer requested from inside the completion callback delivered wrong data");
+        CHECK(c, cb.count == 1, "exactly-one-callback", "the chained transfer invoked the finished transfer's accounting again");
+        ch.active = false; s.clear_tx();
+      } else VLOG(c, "  request from inside the completion callback refused with %d", (int)ch.res);
+    }
     CHECK(c, cb.idx == idx && cb.sub == sub && cb.who == cl, "callback-arguments", "callback reports %04X:%02X, the transfer was for %04X:%02X", cb.idx, cb.sub, idx, sub);
     if (conforming && expcode == 0) {
       if (up) for (uint32_t i = 0; i < size; i++) CHECK(c, ub[i] == sv[i], "upload-data", "upload of %u bytes: user buffer byte %u is %02X, the server sent %02X", size, i, ub[i], sv[i]);
@@ -225,6 +259,7 @@ void one_case(Ctx &c) {
   if (other_tmo_cnt) c.cls("concurrent-second-client-timed-out");
   if (other_cnt) c.cls("concurrent-second-client");
   if (stale_cnt) c.cls("stale-frame-injected");
+  if (chained) c.cls("request-from-inside-the-callback");
   (void)malformed_cnt;
   c.nontrivial = nt;
 }
@@ -236,6 +271,7 @@ Registrar reg(Prop{
     "Oracle: exactly one completion callback per accepted request with the right arguments; code 0 and user buffer == server bytes (upload) / server received exactly the user bytes with announced size, toggles and last-segment marking (download); the server's abort code; 0504 0000h and one abort frame at exactly lastrequest + timeout when the server is silent; busy => CO_ERR_SDO_BUSY; "
     "A frame that cannot be the awaited response (wrong command specifier for the phase, wrong toggle bit, initiate response or abort for a different multiplexer: the late answer to an earlier transfer) may precede the server's answer: the client either ignores it (no frame, no callback, the transfer completes as without it) or ends the transfer there with a non-zero code - never code 0. "
     "In build n2 the second client runs an expedited transfer of its own concurrently (begun between two steps of the main transfer; completed there, at a later step or after the main transfer; or its server stays silent and it must end with 0504 0000h and an abort frame at exactly its own timeout of 2..61 ms while the main client's timers come and go): neither transfer may disturb the other. "
+    "In a fifth of the transfers the application asks for its next transfer from inside the completion callback: refused (busy) or accepted - then that transfer has to complete exactly once with the server's bytes. "
     "user buffers are exact-size heap blocks (ASan red zones); download buffers unmodified (conforming servers); timer-pool occupancy after completion equals the one before; client idle; no callback or frame during the idle gap or on a late server frame. For malformed servers only exactly-once (by the timeout at the latest), memory safety and nothing-left-behind are asserted. "
     "Non-trivial: >= 2 transfers in the case or a segmented transfer. Distinct = distinct decoded choice sequence.",
     {Mode{"random", one_case, false, 1200000, 15000000, 0, 0, 400, 1500}},
